@@ -1,6 +1,7 @@
 //! vp-harness: runtime-monitoring harness for rl2tp (see /verif/DESIGN.md).
 
 pub mod exec;
+pub mod fuzzjudge;
 pub mod gen;
 pub mod glue;
 pub mod monitor;
